@@ -1048,6 +1048,68 @@ example : returned (calculate T0 1 { c2c := some 2 } { count := some 3, end_ := 
     returned (calculate T0 1 { c2c := some (1 / 2) } { count := some 3, start := some (4 / 7) }) =
       some (some 3, some (1 / 4)) := by decide +kernel
 
+/-- (start size, total expansion) reversed, end to end with exact solver answers, **under the existence hypothesis** that
+    the reversed chop's last relation (`c2c<count+end_size` on the count and the size `s`, now the last cell) accepts a
+    rational ratio `c'` (`hroot`; that root is a different number from `1/c` — the original's ratio belongs to the
+    progression counted from its last cell `s·T`, the cells are only "never coarser", not exact — and need not be rational).
+    Then the chop `(end size s, 1/T)`, with the same count answer and the reciprocal root witnesses (`mirrorOracle`),
+    resolves to the same count and the reciprocal total expansion.  Three or more cells: for two cells the count
+    validator of the size+total relation is not mirror-symmetric (a single cell carries no expansion).  `hb`: `T` and
+    `1/T` on the same side of the `TOL` switch of that relation. -/
+theorem T_C03_invert_start_total {L s T c' : ℚ} {o : Oracle} {res : Vals} {n : ℕ}
+    (h : calculate T0 L o { start := some s, total := some T } = .ok res) (hcnt : res.count = some n) (hn : 3 ≤ n)
+    (hb : absR (T - 1) < TOL ↔ absR (1 / T - 1) < TOL)
+    (hroot : c2cCountEnd T0 (mirrorOracle o c') L n s = .ok c') :
+    ∃ res', calculate T0 L (mirrorOracle o c') { end_ := some s, total := some (1 / T) } = .ok res' ∧
+      res'.count = res.count ∧ res'.total = res.total.map (fun T => 1 / T) := by
+  obtain ⟨n', e, c, hn', he, hc, rfl⟩ := pair_start_total h
+  have : n' = n := by simpa using hcnt
+  subst this
+  obtain ⟨hL, hs, hT0, hoc, hn1, hcase⟩ := countTotalStart_ok hn'
+  have hT : 0 < T := by
+    rcases hcase with ⟨hu, _⟩ | ⟨_, hT, _⟩
+    · by_contra hneg
+      have hle : T ≤ 0 := not_lt.mp hneg
+      have h1 : absR (T - 1) = 1 - T := by unfold absR; rw [if_pos (by linarith)]; ring
+      rw [h1] at hu
+      have := TOL_lt_one
+      linarith
+    · exact hT
+  have hTi : (0 : ℚ) < 1 / T := by positivity
+  have hst : s / (1 / T) = s * T := by field_simp
+  have hcount : countTotalStart T0 (mirrorOracle o c') L (1 / T) (s * T) = .ok n' := by
+    unfold countTotalStart
+    simp only [guardLen_bind, guardSize_bind, guardRatio_bind]
+    rw [if_neg (not_le.mpr hL), if_neg (not_le.mpr (by positivity)), if_neg (ne_of_gt hTi)]
+    rcases hcase with ⟨hu, hok⟩ | ⟨hnu, _, hok⟩
+    · rw [if_pos (hb.mp hu), dMin_inv hT]
+      exact oracleCount_intro hoc hn1 hok
+    · rw [if_neg (fun hh => absurd (hb.mpr hh) (not_lt.mpr hnu)), if_neg (not_lt.mpr (le_of_lt hTi))]
+      exact oracleCount_intro hoc hn1 (countTOK_inv hn hok)
+  refine ⟨(⟨some n', some (s * T), some s, some c', some (1 / T)⟩ : Vals), ?_, rfl, rfl⟩
+  rw [calculate_ok_iff (k := 3) (by exact plan_end_total), runSteps3]
+  refine ⟨{ start := some (s * T), end_ := some s, total := some (1 / T) },
+    { count := some n', start := some (s * T), end_ := some s, total := some (1 / T) }, ?_, ?_, ?_⟩
+  · simp only [applyRel, map_ok]
+    refine ⟨s * T, ?_, rfl⟩
+    unfold startEndTotal
+    simp only [guardLen_bind, guardRatio_bind]
+    rw [if_neg (not_le.mpr hL), if_neg (ne_of_gt hTi), hst]
+    rfl
+  · simp only [applyRel, map_ok]
+    exact ⟨n', hcount, rfl⟩
+  · simp only [applyRel, map_ok]
+    exact ⟨c', hroot, rfl⟩
+
+
+example :
+    let o : Oracle := { count := some 3, c2c := some 2, w1 := some 2, w2 := some 4 }
+    returned (calculate T0 1 o { start := some (1 / 7), total := some 4 }) = some (some 3, some 4) ∧
+    c2cCountEnd T0 (mirrorOracle o (1 / 2)) 1 3 (1 / 7) = .ok (1 / 2) ∧
+    returned (calculate T0 1 (mirrorOracle o (1 / 2)) { end_ := some (1 / 7), total := some (1 / 4) }) =
+      some (some 3, some (1 / 4)) ∧
+    ¬ absR ((4 : ℚ) - 1) < TOL ∧ ¬ absR (1 / (4 : ℚ) - 1) < TOL := by decide +kernel
+
 /-! ### 7b. histories on one `Chop` object: `calculate` keeps no memory -/
 
 /-- Every `calculate` inside a history of calls on one object answers exactly what a fresh chop with the current
